@@ -97,7 +97,7 @@ def main(argv):
     if not conf.get("ok"):
         print("NOT CONFIRMED - not kept")
         return 1
-    dest = os.path.join(VERIF, "seeded", sid)
+    dest = os.path.join(os.environ.get("VERIF_SEEDED_DIR") or os.path.join(VERIF, "seeded"), sid)
     os.makedirs(dest, exist_ok=True)
     for f in ("patch.diff", "demo.py"):
         shutil.copy(os.path.join(mdir, f), os.path.join(dest, f))
